@@ -195,10 +195,10 @@ def REPLACE(
             f'start_num {start_num} is < 1 or num_chars {num_chars} is < 0')
     new_text_str = str(new_text)
 
-    sliced_old_text = old_text_str[start_num_int:
-                                   start_num_int + num_chars_int]
-
-    return old_text_str.replace(sliced_old_text, new_text_str)
+    # Splice by position; `str.replace` on the addressed characters would
+    # rewrite every other occurrence of them as well.
+    return (old_text_str[:start_num_int] + new_text_str
+            + old_text_str[start_num_int + num_chars_int:])
 
 
 @xl.register()
